@@ -186,13 +186,8 @@ def run(ctx):
     rnd = random.Random(ctx.seed * 7919 + 14)
     h = Harness()
     scens = scenarios(rnd, quick)
-    worlds, ws = [], []
-    steps = 0
-    for s in scens:
-        for w in poolsim.explore(h, s, rnd, 150 if quick else 4000, ctx, est_len=120):
-            worlds.append(w)
-            ws.append(s)
-            steps += w.steps
+    worlds, ws = poolsim.explore_all(h, scens, ctx.seed * 7919 + 14, 400 if quick else 15000, ctx, est_len=120)
+    steps = sum(w.steps for w in worlds)
     outcomes = {}
     for w in worlds:
         outcomes[w.outcome] = outcomes.get(w.outcome, 0) + 1
@@ -202,12 +197,12 @@ def run(ctx):
     for w, s, tr, (matched, total) in zip(worlds, ws, traces, verdicts):
         ctx.traces += 1
         ctx.case(("C14", json.dumps(s, sort_keys=True), tuple(w.schedule)))
-        exc = next((t.exc for t in w.tasks if t.exc is not None), None)
+        exc = w.any_exc
         if matched != total or w.outcome != "ok" or exc is not None:
             ev = tr[matched]["op"] if matched < total else None
             sig = {"kind": "schedule", "scenario": s["name"], "event": ev and ev["op"], "outcome": w.outcome}
             desc = ("C14: scenario %s: execution (schedule of %d steps, outcome %s%s) is rejected by the observer specification at event %d %s"
-                    % (json.dumps(s, sort_keys=True), len(w.schedule), w.outcome, ", a process raised %r" % (exc,) if exc else "", matched,
+                    % (json.dumps(s, sort_keys=True), len(w.schedule), w.outcome, ", a process raised %s" % (exc,) if exc else "", matched,
                        json.dumps(ev)))
             ctx.violation(sig, desc, {"engine": "simworld", "scenario": s, "schedule": w.schedule,
                                       "events": [t["op"] for t in tr][:200], "rejected_at": matched})
